@@ -98,6 +98,7 @@ fn check_doc(ctx: &mut Ctx, schema: &Valid<Schema>, text: &str, family: &str) ->
     ctx.stat(if want_ok { "spec-valid" } else { "spec-invalid" });
     ctx.stat(&format!("family:{family}"));
     for r in &out.violations { ctx.stat(&format!("rule:{r}")); }
+    family_streams(ctx, schema, &doc, text, &out.violations);
     if want_ok || out.violations.len() == 1 { ctx.nontrivial(text); }
     if got_ok == want_ok { return Some(want_ok); }
     // classify: which single known-defect emulation (or pair) explains it?
@@ -125,6 +126,151 @@ fn check_doc(ctx: &mut Ctx, schema: &Valid<Schema>, text: &str, family: &str) ->
     };
     for k in keys { ctx.fail(k, text.trim(), &what); }
     Some(want_ok)
+}
+
+
+// ------------------------------------------------------------------------------------------------
+// family streams c17.ops / c17.frags / c17.fields / c17.args / c17.vars: the diagnostics of one rule
+// family, real code vs the Lean models (Model/Standalone.lean on the erased document for the
+// structural rules, Model/ExecRules.lean for the typed ones)
+// ------------------------------------------------------------------------------------------------
+
+const FAMILIES: [(&str, &[&str]); 5] = [
+    ("ops", &["AmbiguousAnonymousOperation", "OperationNameCollision", "UndefinedRootOperation", "TypeSystemDefinition"]),
+    ("frags", &["FragmentNameCollision", "UndefinedTypeInNamedFragmentTypeCondition", "UndefinedTypeInInlineFragmentTypeCondition", "InvalidFragmentTarget",
+        "UndefinedFragment", "RecursiveFragmentDefinition", "UnusedFragment", "InvalidFragmentSpread"]),
+    ("fields", &["UndefinedField", "SubselectionOnLeaf", "MissingSubselection"]),
+    ("args", &["UniqueArgument", "UndefinedArgument", "RequiredArgument"]),
+    ("vars", &["UniqueVariable", "VariableInputType", "UndefinedDefinition", "UnusedVariable", "UndefinedVariable", "DisallowedVariableUsage"]),
+];
+
+fn enc_aty(t: &Type, o: &mut Vec<String>) {
+    match t {
+        Type::Named(n) => o.push(format!("n{n}")),
+        Type::NonNullNamed(n) => o.push(format!("N{n}")),
+        Type::List(i) => { o.push("l".into()); enc_aty(i, o) }
+        Type::NonNullList(i) => { o.push("L".into()); enc_aty(i, o) }
+    }
+}
+fn enc_indefs(defs: &[apollo_compiler::Node<ast::InputValueDefinition>], o: &mut Vec<String>) {
+    o.push(defs.len().to_string());
+    for d in defs { o.push(d.name.to_string()); enc_aty(&d.ty, o); o.push(if d.default_value.is_some() { "1" } else { "0" }.into()); }
+}
+fn dir_loc_code(l: &ast::DirectiveLocation) -> String {
+    use ast::DirectiveLocation::*;
+    match l {
+        Query => "q".into(), Mutation => "m".into(), Subscription => "s".into(), Field => "f".into(), FragmentDefinition => "g".into(),
+        FragmentSpread => "p".into(), InlineFragment => "i".into(), VariableDefinition => "v".into(), other => format!("t{}", other.name().len()),
+    }
+}
+/// what the rules read from the schema
+fn enc_rschema(s: &Schema) -> String {
+    use apollo_compiler::schema::ExtendedType as E;
+    let mut o: Vec<String> = vec![];
+    for t in [ast::OperationType::Query, ast::OperationType::Mutation, ast::OperationType::Subscription] {
+        o.push(s.root_operation(t).map(|n| n.to_string()).unwrap_or("-".into()));
+    }
+    o.push(s.types.len().to_string());
+    for (name, t) in &s.types {
+        o.push(name.to_string());
+        let fields = |fs: &apollo_compiler::collections::IndexMap<apollo_compiler::Name, apollo_compiler::schema::Component<ast::FieldDefinition>>, o: &mut Vec<String>| {
+            o.push(fs.len().to_string());
+            for (fname, f) in fs { o.push(fname.to_string()); enc_indefs(&f.arguments, o); enc_aty(&f.ty, o); }
+        };
+        match t {
+            E::Scalar(sc) => o.push(if sc.is_built_in() { "s1" } else { "s0" }.into()),
+            E::Enum(_) => o.push("e".into()),
+            E::InputObject(io) => { o.push("i".into()); o.push(io.fields.len().to_string()); for (n, d) in &io.fields { o.push(n.to_string()); enc_aty(&d.ty, &mut o); o.push(if d.default_value.is_some() { "1" } else { "0" }.into()); } }
+            E::Object(ob) => { o.push("o".into()); o.push(ob.implements_interfaces.len().to_string()); for i in &ob.implements_interfaces { o.push(i.to_string()); } fields(&ob.fields, &mut o); }
+            E::Interface(ob) => { o.push("f".into()); o.push(ob.implements_interfaces.len().to_string()); for i in &ob.implements_interfaces { o.push(i.to_string()); } fields(&ob.fields, &mut o); }
+            E::Union(u) => { o.push("u".into()); o.push(u.members.len().to_string()); for m in &u.members { o.push(m.to_string()); } }
+        }
+    }
+    o.push(s.directive_definitions.len().to_string());
+    for (n, d) in &s.directive_definitions {
+        o.push(n.to_string()); o.push(if d.repeatable { "1" } else { "0" }.into());
+        o.push(d.locations.len().to_string()); for l in &d.locations { o.push(dir_loc_code(l)); }
+        enc_indefs(&d.arguments, &mut o);
+    }
+    format!("={}", o.join(" "))
+}
+fn enc_rval(v: &ast::Value, o: &mut Vec<String>) {
+    match v {
+        ast::Value::Variable(n) => o.push(format!("v{n}")),
+        ast::Value::Null => o.push("z".into()),
+        ast::Value::List(xs) => { o.push(format!("a{}", xs.len())); for x in xs { enc_rval(x, o) } }
+        ast::Value::Object(kvs) => { o.push(format!("o{}", kvs.len())); for (k, x) in kvs { o.push(format!("k{k}")); enc_rval(x, o) } }
+        _ => o.push("x".into()),
+    }
+}
+fn enc_rargs(args: &[apollo_compiler::Node<ast::Argument>], o: &mut Vec<String>) {
+    o.push(args.len().to_string());
+    for a in args { o.push(a.name.to_string()); enc_rval(&a.value, o); }
+}
+fn enc_rdirs(ds: &ast::DirectiveList, o: &mut Vec<String>) {
+    o.push(ds.len().to_string());
+    for d in ds.iter() { o.push(d.name.to_string()); enc_rargs(&d.arguments, o); }
+}
+fn enc_rsels(sels: &[ast::Selection], o: &mut Vec<String>) {
+    for s in sels {
+        match s {
+            ast::Selection::Field(f) => { o.push("F".into()); o.push(f.name.to_string()); enc_rdirs(&f.directives, o); enc_rargs(&f.arguments, o); enc_rsels(&f.selection_set, o); }
+            ast::Selection::FragmentSpread(sp) => { o.push("P".into()); o.push(sp.fragment_name.to_string()); enc_rdirs(&sp.directives, o); }
+            ast::Selection::InlineFragment(i) => { o.push("I".into()); o.push(i.type_condition.as_ref().map(|t| t.to_string()).unwrap_or("-".into())); enc_rdirs(&i.directives, o); enc_rsels(&i.selection_set, o); }
+        }
+    }
+    o.push(".".into());
+}
+fn enc_rdoc(doc: &ast::Document) -> String {
+    let mut o: Vec<String> = vec![];
+    for d in &doc.definitions {
+        match d {
+            ast::Definition::OperationDefinition(op) => {
+                o.push("O".into());
+                o.push(match op.operation_type { ast::OperationType::Query => "q", ast::OperationType::Mutation => "m", ast::OperationType::Subscription => "s" }.into());
+                o.push(op.name.as_ref().map(|n| n.to_string()).unwrap_or("-".into()));
+                o.push(op.variables.len().to_string());
+                for v in &op.variables {
+                    o.push(v.name.to_string()); enc_aty(&v.ty, &mut o);
+                    o.push(match v.default_value.as_deref() { None => "a", Some(ast::Value::Null) => "n", Some(_) => "v" }.into());
+                    enc_rdirs(&v.directives, &mut o);
+                }
+                enc_rdirs(&op.directives, &mut o); enc_rsels(&op.selection_set, &mut o);
+            }
+            ast::Definition::FragmentDefinition(f) => { o.push("G".into()); o.push(f.name.to_string()); o.push(f.type_condition.to_string()); enc_rdirs(&f.directives, &mut o); enc_rsels(&f.selection_set, &mut o); }
+            _ => o.push("X".into()),
+        }
+    }
+    format!("={}", o.join(" "))
+}
+
+static FAMILY_COUNTER: std::sync::atomic::AtomicUsize = std::sync::atomic::AtomicUsize::new(0);
+
+fn family_streams(ctx: &mut Ctx, schema: &Valid<Schema>, doc: &ast::Document, text: &str, violations: &BTreeSet<&'static str>) {
+    // no variables inside default values / no `@defer` / no repeated input-object keys complications: the models cover them or ignore them
+    let kinds: Vec<String> = match catch(|| match ExecutableDocument::parse_and_validate(schema, text, "doc.graphql") {
+        Ok(_) => vec![],
+        Err(e) => e.errors.iter().map(|d| d.error.unstable_error_name().unwrap_or("Other").to_string()).collect(),
+    }) { Ok(k) => k, Err(_) => return };
+    let kinds: Vec<String> = kinds.into_iter().map(|k| if k == "SubselectionOnScalarType" || k == "SubselectionOnEnumType" { "SubselectionOnLeaf".to_string() } else { k }).collect();
+    let n = FAMILY_COUNTER.fetch_add(1, std::sync::atomic::Ordering::Relaxed);
+    let rule_family = |r: &str| -> Option<&'static str> { Some(match r {
+        "OperationNameUniqueness" | "LoneAnonymousOperation" | "ExecutableDefinitions" | "ApolloUndefinedRootOperationType" => "ops",
+        "FragmentNameUniqueness" | "FragmentSpreadTypeExistence" | "FragmentsOnCompositeTypes" | "FragmentsMustBeUsed" | "FragmentSpreadTargetDefined" | "FragmentSpreadsMustNotFormCycles" | "FragmentSpreadIsPossible" => "frags",
+        "FieldSelections" | "LeafFieldSelections" => "fields",
+        "ArgumentNames" | "ArgumentUniqueness" | "RequiredArguments" => "args",
+        "VariableUniqueness" | "VariablesAreInputTypes" | "AllVariableUsesDefined" | "AllVariablesUsed" | "AllVariableUsagesAllowed" => "vars",
+        _ => return None }) };
+    let mut enc: Option<(String, String)> = None;
+    for (i, (fam, fam_kinds)) in FAMILIES.iter().enumerate() {
+        let mine: Vec<String> = { let mut v: Vec<String> = kinds.iter().filter(|k| fam_kinds.contains(&k.as_str())).cloned().collect(); v.sort(); v };
+        let period = if ctx.thorough { 20 } else { 5 };
+        let wanted = n % period == i || !mine.is_empty() || violations.iter().any(|r| rule_family(r) == Some(*fam));
+        if !wanted { continue; }
+        let (es, ed) = enc.get_or_insert_with(|| (enc_rschema(schema), enc_rdoc(doc)));
+        ctx.case(&format!("c17.{fam}"), &[es.clone(), ed.clone()], &if mine.is_empty() { "ok".to_string() } else { mine.join(",") });
+        ctx.stat(&format!("family_stream:{fam}"));
+    }
 }
 
 // ------------------------------------------------------------------------------------------------
